@@ -21,6 +21,9 @@ class LoopSpec:
         self.name, self.havoc, self.inv, self.facts, self.elem, self.ghost_step, self.init = name, havoc, inv, facts, elem, ghost_step, init
 
     def _length(self, E, it):
+        from .interp import SRange
+        if isinstance(it, SRange):
+            return z3.simplify(to_z3int(it.hi) - to_z3int(it.lo))
         if isinstance(it, SSeq):
             return it.length
         if isinstance(it, (list, tuple)):
@@ -42,6 +45,9 @@ class LoopSpec:
             return
         n = self._length(E, it)
         zn = n if not isinstance(n, int) else z3.IntVal(n)
+        zn = z3.If(zn < 0, z3.IntVal(0), zn) if not isinstance(n, int) else zn
+        if self.init:
+            self.init(E, fr)
         E.require("%s.inv_on_entry" % self.name, self.inv(E, fr, z3.IntVal(0)), kind="inv")
         if E.choose(2, "loop") == 0:
             i = E.fresh_int("i")
@@ -55,6 +61,8 @@ class LoopSpec:
                 x = self.elem(E, it, i)
             elif hasattr(it, "elem"):
                 x = it.elem(E, i)
+            elif hasattr(it, "lo") and hasattr(it, "hi"):
+                x = z3.simplify(to_z3int(it.lo) + i)
             else:
                 x = it.get(i) if isinstance(it, SSeq) else None
             if x is None:
